@@ -69,7 +69,10 @@ def _scope(sf, opts):
     lo, hi = 0, len(sf.src)
     if opts.get('in'):
         for mod in opts['in'].split('::'):
-            hits = L.find_block(sf.mask, 'mod', mod, lo, hi)
+            if mod.strip().startswith('impl'):
+                hits = L.find_block(sf.mask, 'impl', mod.strip()[4:].strip(), lo, hi)
+            else:
+                hits = L.find_block(sf.mask, 'mod', mod, lo, hi)
             if not hits:
                 raise Undecided('lost anchor: mod %s in %s' % (mod, sf.rel))
             lo, hi = hits[0][1] + 1, hits[0][2]
@@ -531,6 +534,10 @@ class Gen:
                 rep = ('|x_eta| -> (r_eta: _) requires call_requires(%s, (x_eta,)) ensures call_ensures(%s, (x_eta,), r_eta) { %s(x_eta) }'
                        % (path, path, path))
             edits.append((a, b, rep, 'R1'))
+        # R1b: `|_|` closure parameters (Verus only accepts variable patterns there) -> `|_unused|`
+        for m in re.finditer(r'\|\s*_\s*\|', bmask):
+            if not any(e[0] <= m.start() < e[1] for e in edits):
+                edits.append((m.start(), m.end(), '|_unused|', 'R1'))
         edits = [e for _, e in sorted(enumerate(edits), key=lambda t: (t[1][0], t[1][1], t[0]))]
         for e1, e2 in zip(edits, edits[1:]):
             if e2[0] < e1[1]:
